@@ -249,6 +249,9 @@ def check_property(pid, tier, only=None, keep_going=True):
     if not only:
         with open(os.path.join(EVIDENCE, '%s.json' % pid), 'w') as f:
             json.dump(evidence, f, indent=1, default=repr)
+        os.makedirs(os.path.join(EVIDENCE, 'tiers'), exist_ok=True)      # the last run of each tier, kept side by side
+        with open(os.path.join(EVIDENCE, 'tiers', '%s-%s.json' % (pid, tier)), 'w') as f:
+            json.dump(evidence, f, indent=1, default=repr)
 
     for l in known_lines:
         print(l)
